@@ -1241,7 +1241,12 @@ result_t NumberDataType::parseInput(const string inputStr, unsigned int* parsedV
           }
           value = (unsigned int)unsignedValue;
         }
-        if (strEnd == nullptr || strEnd == str || (*strEnd != 0 && *strEnd != '.')) {
+        if (strEnd != nullptr && strEnd != str && *strEnd == '.') {
+          do {  // decimals of an integer are ignored, anything else behind them is not
+            strEnd++;
+          } while (*strEnd >= '0' && *strEnd <= '9');
+        }
+        if (strEnd == nullptr || strEnd == str || *strEnd != 0) {
           return RESULT_ERR_INVALID_NUM;  // invalid value
         }
       } else {
